@@ -19,6 +19,7 @@
    independent by construction. *)
 From JT.Base Require Import Prelude.
 From JT.Model Require Import Frame Reply.
+From JT.Model Require Subpkg SubpkgHandlers.
 From JT.Proofs Require Import Frame_proofs Reply_proofs.
 
 (* exactly one reply for every message that requires one, none for any other (responses,
@@ -309,3 +310,19 @@ Example C06_two_connections :
   map (fun w => (w_rid w, w_ps w)) (writes (proj_obs 0 (gtrace (map init mss) s))) = [(0x8001, 0)] /\
   map (fun w => (w_rid w, w_ps w)) (writes (proj_obs 1 (gtrace (map init mss) s))) = [(0x8800, 0)].
 Proof. exact example_two_connections. Qed.
+(* "a sub-packaged message counts once, when complete" for the smallest transfer, ONE package (fragment
+   bit set, total 1, number 1), run through the reassembler model (Model/Subpkg.v cp_loop, C05) and this
+   model: parse delivers the packet - not complete by itself: hasComplete is total = 0 or
+   SubcontractComplete - and then the completed message; one 0x8001 (platform serial 0), the heartbeat
+   that follows gets serial 1, two read callbacks.  (The general statement is Props/C05.v
+   C05_handlers_see_exactly_one, whose `bodies <> []` includes one body; a code that treats total <= 1
+   as complete answers twice: seed C06-7, caught by the generator's np = 1 transfers.) *)
+Example C06_one_package_transfer :
+  let ds := map SubpkgHandlers.dmsg_of (snd (Subpkg.cp_loop 0 [] [([], ex_one_pkt); ([], ex_hb_msg)])) in
+  map (fun d => (m_id (d_m d), m_sum (d_m d), d_complete d, has_complete d, answered d)) ds =
+    [(0x0200, 1, false, false, false); (0x0200, 1, true, true, true); (0x0002, 0, false, true, true)] /\
+  map (fun d => m_body (d_m d)) ds = [[7; 8; 9]; [7; 8; 9]; []] /\
+  map (fun w => (w_rid w, w_ps w, w_body w)) (writes (run ds)) =
+    [(0x8001, 0, [0; 9; 2; 0; 0]); (0x8001, 1, [0; 10; 0; 2; 0])] /\
+  length (read_srcs (run ds)) = 2%nat.
+Proof. exact example_one_package_transfer. Qed.
